@@ -207,6 +207,75 @@ def problems(group):
     return uniq
 
 
+def _immutable(v, depth=0):
+    if v is None or isinstance(v, (bool, int, float, complex, str, bytes, type)) or callable(v) and not hasattr(v, '__dict__'):
+        return True
+    if isinstance(v, (tuple, frozenset)) and depth < 4:
+        return all(_immutable(x, depth + 1) for x in v)
+    import types as _t
+    if isinstance(v, (_t.FunctionType, _t.BuiltinFunctionType, _t.ModuleType)):
+        return True
+    import re as _re
+    return isinstance(v, _re.Pattern)
+
+
+def memo_probe(memo):
+    """for every memoised module-level function: the arguments it receives while a few statements are parsed, printed, rendered and planned by the real
+    code are recorded (by wrapping the module attribute), then the real function is called twice with each of them: an identical, mutable result
+    is state shared between calls and threads.  -> [(name, 'immutable' | 'shared-mutable' | 'unknown', args, what)]"""
+    import importlib
+    out = []
+    for entry in memo:
+        modname, rest = entry.split(':', 1)
+        fname = rest.split(' @')[0]
+        try:
+            mod = importlib.import_module(modname)
+            orig = getattr(mod, fname)
+        except Exception:
+            out.append((entry, 'unknown', None, 'not a module-level function'))
+            continue
+        calls = []
+
+        def rec(*a, _orig=orig, **k):
+            calls.append((a, k))
+            return _orig(*a, **k)
+        setattr(mod, fname, rec)
+        try:
+            import mindsdb_sql
+            from mindsdb_sql.planner import plan_query
+            for d in ('sqlite', 'mysql', 'mindsdb'):
+                try:
+                    t = mindsdb_sql.parse_sql('select a from int1.t where b = 1', dialect=d)
+                    str(t)
+                    plan_query(t, integrations=['int1'], default_namespace='mindsdb')
+                    from mindsdb_sql.render.sqlalchemy_render import SqlalchemyRender
+                    SqlalchemyRender('mysql').get_string(t)
+                except Exception:
+                    pass
+        finally:
+            setattr(mod, fname, orig)
+        if not calls:
+            out.append((entry, 'unknown', None, 'not reached by the probe statements'))
+            continue
+        verdict = ('immutable', None, None)
+        for a, k in calls[:6]:
+            try:
+                r1, r2 = orig(*a, **k), orig(*a, **k)
+            except Exception:
+                continue
+            if _immutable(r1):
+                continue
+            parts = list(zip(r1, r2)) if isinstance(r1, tuple) and isinstance(r2, tuple) else [(r1, r2)]
+            same = [type(x).__name__ for x, y in parts if x is y and not _immutable(x)]
+            if same:
+                verdict = ('shared-mutable', a, f'two calls with {a} return the same {", ".join(same)} object(s)')
+                break
+            verdict = ('immutable', None, None)
+        out.append((entry, verdict[0], verdict[1], verdict[2]))
+    return out
+
+
+
 def obligations(rep, prop, group, replay=None):
     """adds `<prop>.state.<kind>.<site>` obligations (one proved summary when the group is clean)"""
     ps = problems(group)
@@ -220,4 +289,11 @@ def obligations(rep, prop, group, replay=None):
             rp = replay() if callable(replay) else replay
             rep.failed(oid, 'frames', detail, function=f'(modules: {group})', clause=clause, replay=rp)
         else:
-            rep.undecided(oid, 'frames', detail + ': the memoised result type needs a contract', function=f'(modules: {group})', clause=clause)
+            # a memoised function: what matters is what it hands out. Probed on the real code (two calls with the arguments it really receives):
+            # immutable results are not state; a shared mutable object is decided by C20 (isolation), for the other properties it leaves the
+            # sufficient condition "no state outlives a call" open
+            entry = detail.split(' is memoised (@')[0] + ' @' + detail.split(' is memoised (@')[1].split(')')[0] + ')'
+            pr = memo_probe([entry])[0]
+            if pr[1] == 'immutable':
+                continue
+            rep.undecided(oid, 'frames', detail + (f': {pr[3]}' if pr[1] == 'shared-mutable' else ': the memoised result type needs a contract'), function=f'(modules: {group})', clause=clause)
